@@ -10,6 +10,7 @@ import (
 
 	"github.com/lidofinance/dc4bc/client/types"
 	fsmtypes "github.com/lidofinance/dc4bc/fsm/types"
+	"github.com/lidofinance/dc4bc/fsm/types/requests"
 	"github.com/lidofinance/dc4bc/pkg/utils"
 	"github.com/lidofinance/dc4bc/storage"
 
@@ -54,6 +55,12 @@ func (ce *Ceremony) RunBatch(b BatchSpec, policy world.RunPolicy) (*storage.Mess
 	}
 	if prop == nil {
 		return nil, fmt.Errorf("proposal not on board")
+	}
+	// what the operator asked to be signed (name -> content) is what the proposal on the board carries
+	if b.Hand == nil && len(b.Data) > 0 {
+		ce.ProposalMismatch = requestVsProposal(b.Data, prop.Data)
+	} else {
+		ce.ProposalMismatch = ""
 	}
 	in := map[int]bool{}
 	for _, s := range b.Signers {
@@ -273,4 +280,32 @@ func (ce *Ceremony) JudgeSignatures(c *Ctx, j *sigJudge, expected map[string]map
 			}
 		}
 	}
+}
+
+
+// requestVsProposal compares the files an operator handed to the API / tool with the tasks of the proposal
+// that reached the board: every file once, under its own name, with its own bytes, nothing else.
+func requestVsProposal(data map[string][]byte, proposal []byte) string {
+	var req requests.SigningBatchProposalStartRequest
+	if err := json.Unmarshal(proposal, &req); err != nil {
+		return "proposal does not parse: " + err.Error()
+	}
+	seen := map[string]bool{}
+	for _, tk := range req.SigningTasks {
+		want, ok := data[tk.File]
+		if !ok {
+			return fmt.Sprintf("the proposal carries a task for file %q, which was not among the %d files handed in", tk.File, len(data))
+		}
+		if seen[tk.File] {
+			return fmt.Sprintf("file %q appears twice in the proposal", tk.File)
+		}
+		seen[tk.File] = true
+		if !bytes.Equal(tk.Payload, want) {
+			return fmt.Sprintf("file %q (%d bytes) is proposed with a payload of %d bytes that differs from the file's content", tk.File, len(want), len(tk.Payload))
+		}
+	}
+	if len(seen) != len(data) {
+		return fmt.Sprintf("%d files were handed in, the proposal carries %d of them", len(data), len(seen))
+	}
+	return ""
 }
